@@ -43,7 +43,8 @@ CATALOGUE = [  # (est, var, uses rayon, uses seed) -- must match Gen_Determinism
     ("randproj", "sparse_default", 0, 0), ("scaler", "standard", 0, 0), ("scaler", "minmax", 0, 0), ("scaler", "maxabs", 0, 0),
     ("norm", "l2", 0, 0), ("norm", "l1", 0, 0), ("norm", "max", 0, 0), ("whiten", "pca", 0, 0), ("whiten", "zca", 0, 0),
     ("whiten", "cholesky", 0, 0), ("countvec", "plain", 0, 0), ("countvec", "maxfeat", 0, 0), ("countvec", "bigram", 0, 0),
-    ("countvec", "df", 0, 0), ("tfidf", "plain", 0, 0), ("tfidf", "maxfeat", 0, 0), ("pearson", "", 0, 0)]
+    ("countvec", "df", 0, 0), ("tfidf", "plain", 0, 0), ("tfidf", "maxfeat", 0, 0), ("pearson", "", 0, 0),
+    ("label_freq", "", 0, 0)]
 # estimators that are slow or fail on very small inputs are not drawn for tiny random lattice data
 SLOW = {"svr", "svc", "svm_multi", "glm", "ica", "diffmap"}
 
@@ -71,7 +72,7 @@ def random_cases(ctx, count):
             hs = ["fresh"] + [h for h in HISTS[1:] if r.random() < 0.6] or ["fresh", "reset"]
             if len(hs) == 1:
                 hs.append(r.choice(HISTS[1:]))
-            data = {"g": "blobs", "x": [], "y": [], "n": r.choice([30, 64, 100, 257]), "d": r.randint(1, 4), "c": r.randint(2, 5),
+            data = {"g": "blobs", "x": [], "y": [], "w": [], "n": r.choice([30, 64, 100, 257]), "d": r.randint(1, 4), "c": r.randint(2, 5),
                     "seed": r.randint(1, 10 ** 6)}
             out.append(mk("builder", est, "", data, r.randint(1, 1000) if seeded else 7, 3, r.choice([[[1, 1], [3, 1]], [[2, 2]]]),
                           2, False, hs))
@@ -84,12 +85,15 @@ def random_cases(ctx, count):
             y = [r.randint(0, 3) for _ in range(n)]
             ls = sorted(set(y))
             y = [ls.index(v) for v in y]
-            data = {"g": "lat", "x": x, "y": y, "n": n, "d": 2, "c": 0, "seed": 0}
+            # a third of the lattice cases carry f32 sample weights 0..3 ulps above 1.0 / 0.1 / 0.3 (used by the
+            # trees, label frequencies and isotonic regression; ignored by the others)
+            w = [[r.choice([1, 2, 3]), r.randint(0, 3)] for _ in range(n)] if r.random() < 0.33 else []
+            data = {"g": "lat", "x": x, "y": y, "w": w, "n": n, "d": 2, "c": 0, "seed": 0}
             k = r.randint(2, min(4, n))
             kind = "tie"
         else:
             n = r.choice([30, 64, 100, 257, 400]) if not par else r.choice([64, 257, 1000, 2500])
-            data = {"g": "blobs", "x": [], "y": [], "n": n, "d": r.randint(1, 5), "c": r.randint(2, 6), "seed": r.randint(1, 10 ** 6)}
+            data = {"g": "blobs", "x": [], "y": [], "w": [], "n": n, "d": r.randint(1, 5), "c": r.randint(2, 6), "seed": r.randint(1, 10 ** 6)}
             k = r.randint(2, 5)
             kind = "blob"
         plan = PLAN_FULL if par else r.choice([PLAN_SEQ, [[1, 1], [2, 1], [0, 1]], [[3, 2]]])
@@ -111,6 +115,9 @@ def nontrivial(trace):
             cnt[l] = cnt.get(l, 0) + 1
         tie = len(cnt) >= 2 and sorted(cnt.values())[-1] == sorted(cnt.values())[-2]
         return dup or tie
+    if kind == "ulp":   # at least two class weights that differ by 1..3 ulps
+        offs = sorted({w[1] for w in inp["data"]["w"][:-2]})
+        return len(offs) >= 2
     if kind == "hook":
         for ev in trace["ev"]:
             tids = set()
@@ -244,7 +251,7 @@ def run(ctx):
     ctx.extra.update({"value_events": nvals, "value_hook_bound": nvals > 0})
     ctx.extra.update({"runs_executed": nruns, "hook_events": nhook, "hook_bound": bool(req_hook and nhook > 0),
                       "hook_cases_with_loop_split_over_threads": split,
-                      "families": {k: sum(1 for t in traces if t["kind"] == k) for k in ("tie", "frac", "blob", "builder", "hook", "hookbig", "big")}})
+                      "families": {k: sum(1 for t in traces if t["kind"] == k) for k in ("tie", "frac", "ulp", "blob", "builder", "hook", "hookbig", "big")}})
     ctx.rule = ("cases = configurations (estimator variant x data x seed) enumerated by TLC (Gen_Determinism: all labelled lattice "
                 "data sets up to the tier's size x tie-sensitive estimators; the whole catalogue x generated data; k-means family with "
                 "hook on small data (row by row) and on >= 9000 rows (loops coarse, reductions + their values) / on large data up to 20000-40000 rows) [+ seeded random configurations in the thorough tier], each run under its plan of environments "
